@@ -1,4 +1,6 @@
-(* C09 — property theorems over the protocol model Conc/RpcSync.v.
+(* C09 — property theorems over the protocol model Conc/RpcSync.v, which follows
+   /repo after the repairs 86fb806, 4b9897e, ca3c269, 8ad26fe, e5ad5bb (and the
+   machine-tick repairs 50f5531, b365688, 6a5055c through the probed switches).
    Nothing but statements closed by [exact]. Theorems quantify over all
    configurations, snapshots, histories and event lists; refutations give a
    witness that is replayed on the real code by corpus/C09. *)
@@ -8,45 +10,15 @@ From AMV Require Proofs.C09Proofs.
 Import ListNotations.
 Open Scope N_scope.
 
-(* a full Sync restores the mirror: whatever the client holds (any drift),
-   one SyncReq served and delivered leaves it with the source's time and
-   queue tick; the server's lastPushData is NOT touched *)
-Theorem full_sync_restores :
-  forall (p : pcfg) (s : st),
-    st_err s = false -> cl_stuck (st_cl s) = false -> st_wire s = [] ->
-    s_time (st_cur s) <> [] ->
-    length (s_time (st_cur s)) = length (cl_t (st_cl s)) ->
-    let s' := exec p s [SyncReq; Settle] in
-    client_view s' = (s_time (st_cur s), s_q (st_cur s),
-                      if p_sync_m p then s_m (st_cur s) else 0) /\
-    st_wire s' = [] /\ cl_need (st_cl s') = false /\ cl_stuck (st_cl s') = false /\
-    st_err s' = false /\ st_sv s' = st_sv s.
-Proof. exact C09Proofs.full_sync_restores_lemma. Qed.
-Print Assumptions full_sync_restores.
-
-(* ... and with a schema its synchronised entries are the source's for every
-   tracked set *)
-Theorem full_sync_mirror_ok :
-  forall (c : cfg) (src : list N), sync_schema c = true -> mirror_ok c src src = true.
-Proof. exact C09Proofs.full_sync_mirror_ok. Qed.
-Print Assumptions full_sync_mirror_ok.
-
-(* a client whose read loop is blocked stays as it is whatever happens
-   (pushes, replies, syncs, connection drops) *)
-Theorem stuck_forever :
-  forall (p : pcfg) (es : list ev) (s : st),
-    cl_stuck (st_cl s) = true -> st_cl (exec p s es) = st_cl s.
-Proof. exact C09Proofs.stuck_forever_lemma. Qed.
-Print Assumptions stuck_forever.
-
 (* (1) in-order delivery converges. For every configuration (schema or not,
    any tracked subset) in deep, cumulative mode, every initial snapshot and
    every history of rounds (any number of source transitions, then ONE export
    - a push or the reply of a client-issued mutation - that is delivered
    before the next one is produced): the mirror is exactly the last snapshot.
-   Hypotheses: deltas within the field widths (C10), and every PUSH round
-   exports a snapshot whose queue tick and some synchronised tick moved -
-   without it the statement is false, see inorder_converges_refuted. *)
+   Hypotheses: deltas within the field widths (C10) and a queue tick that moves
+   between two pushes (every transition moves it). Since 8ad26fe the former
+   extra hypothesis "some synchronised tick moved" is gone (it was necessary:
+   the witness is corpus/C09/silent_push.json, now a regression file). *)
 Theorem inorder_converges :
   forall (p : pcfg) (s0 : snap) (rs : list round),
     p_mut p = false -> shallow (p_codec p) = false ->
@@ -67,11 +39,20 @@ Example inorder_converges_nonvacuous :
   let s0 := {| s_time := [1; 4; 2]; s_q := 7; s_m := 1 |} in
   let a := {| s_time := [3; 9; 2]; s_q := 9; s_m := 1 |} in
   let b := {| s_time := [3; 9; 5]; s_q := 10; s_m := 1 |} in
-  let rs := [RPush [] a; RReply [a] b] in
+  let q := {| s_time := [3; 9; 5]; s_q := 11; s_m := 1 |} in   (* only the queue tick moves *)
+  let rs := [RPush [] a; RReply [a] b; RPush [] q] in
   rounds_ok c s0 rs /\
-  cl_t (st_cl (exec p (init p s0) (flat_map round_events rs))) = [3; 5].
+  client_view (exec p (init p s0) (flat_map round_events rs)) = ([3; 5], 11, 1).
 Proof. vm_compute. repeat split; discriminate. Qed.
 Print Assumptions inorder_converges_nonvacuous.
+
+(* (1b) ca3c269: before the first transition after the handshake nothing is
+   exported, for every source history and any number of push runs *)
+Theorem placeholder_not_pushed :
+  forall (p : pcfg) (x : snap) (n : nat),
+    exec p (init p x) (concat (repeat [Push; Settle] n)) = init p x.
+Proof. exact C09Proofs.placeholder_not_pushed_lemma. Qed.
+Print Assumptions placeholder_not_pushed.
 
 (* (2) a mutation made through the network machine: when its reply has been
    processed - the call returns - the mirror already is the snapshot the reply
@@ -91,8 +72,33 @@ Theorem reply_visible_on_return :
 Proof. exact C09Proofs.reply_visible_lemma. Qed.
 Print Assumptions reply_visible_on_return.
 
-(* (3) a detected drift on the reply path is repaired: the reply is rejected,
-   the client requests a full Sync and ends up with the source's time *)
+(* (3) a full Sync restores the mirror: whatever the client holds (any drift),
+   one SyncReq served and delivered leaves it with the source's time and queue
+   tick, provided the response has the client's length (a schema, or all states
+   tracked); the server's lastPushData is NOT touched *)
+Theorem full_sync_restores :
+  forall (p : pcfg) (s : st),
+    st_err s = false -> cl_stuck (st_cl s) = false -> st_wire s = [] -> st_pend s = None ->
+    s_time (st_cur s) <> [] ->
+    length (s_time (st_cur s)) = length (cl_t (st_cl s)) ->
+    let s' := exec p s [SyncReq; Settle] in
+    client_view s' = (s_time (st_cur s), s_q (st_cur s),
+                      if p_sync_m p then s_m (st_cur s) else 0) /\
+    st_wire s' = [] /\ cl_need (st_cl s') = false /\ cl_stuck (st_cl s') = false /\
+    st_err s' = false /\ st_sv s' = st_sv s.
+Proof. exact C09Proofs.full_sync_restores_lemma. Qed.
+Print Assumptions full_sync_restores.
+
+(* ... and with a schema its synchronised entries are the source's for every
+   tracked set *)
+Theorem full_sync_mirror_ok :
+  forall (c : cfg) (src : list N), sync_schema c = true -> mirror_ok c src src = true.
+Proof. exact C09Proofs.full_sync_mirror_ok. Qed.
+Print Assumptions full_sync_mirror_ok.
+
+(* (4) "after a detected clock drift the client resynchronises", reply path:
+   the reply is rejected, the client requests a full Sync and ends up with the
+   source's time *)
 Theorem reply_drift_resyncs :
   forall (p : pcfg) (s : st) (x y : snap) (hello : bool),
     p_mut p = false -> shallow (p_codec p) = false ->
@@ -112,38 +118,41 @@ Theorem reply_drift_resyncs :
 Proof. exact C09Proofs.reply_drift_resyncs_lemma. Qed.
 Print Assumptions reply_drift_resyncs.
 
-(* (4) ... but NOT on the push path (this refutes "after a detected clock
-   drift the client resynchronises" for pushes, for every drifted client):
-   the update is rejected, the client stays exactly as it is, no Sync is
-   requested, and the server now believes the client holds snapshot y *)
-Theorem push_drift_ignored :
+(* (5) ... and, since 86fb806, push path: for every drifted client the pushed
+   diff is rejected, a full Sync is requested and applied. (Before the repair
+   the statement was refuted for every drifted client: push_drift_ignored.)
+   The hypothesis on the length is RemoteSync's remaining defect: without a
+   schema and with an allow / skip list the response is refused, see
+   sync_refused_refuted. *)
+Theorem push_drift_resyncs :
   forall (p : pcfg) (s : st) (x y : snap) (hello : bool),
     p_mut p = false -> shallow (p_codec p) = false ->
     srv_at p s x hello ->
-    sv_latest (st_sv s) = Some (mk_data (p_codec p) y) ->
+    sv_latest (st_sv s) = Some (mk_data (p_codec p) y) -> st_cur s = y ->
     length (s_time x) = length (s_time y) ->
     cfg_wf (p_codec p) (length (s_time x)) = true ->
     snaps_in_range x y = true ->
-    s_q x <> s_q y -> tracked_changed (p_codec p) x y = true ->
+    s_q x <> s_q y ->
     length (cl_t (st_cl s)) = length (mirror (p_codec p) x) ->
     Forall (fun v => v < w64) (cl_t (st_cl s)) -> cl_q (st_cl s) < w64 -> cl_m (st_cl s) < w32 ->
     drifted (p_codec p) x (cl_t (st_cl s)) (cl_q (st_cl s)) (cl_m (st_cl s)) = true ->
+    s_time y <> [] -> length (s_time y) = length (cl_t (st_cl s)) ->
     let s' := exec p s [Push; Settle] in
-    st_cl s' = st_cl s /\ st_rejpush s' = true /\
-    sv_last (st_sv s') = mk_data (p_codec p) y /\
-    srv_at p s' y false.
-Proof. exact C09Proofs.push_drift_ignored_lemma. Qed.
-Print Assumptions push_drift_ignored.
+    client_view s' = (s_time y, s_q y, if p_sync_m p then s_m y else 0) /\
+    st_rejpush s' = true /\ st_synced s' = true /\ quiescent s' = true /\ st_err s' = false /\
+    sv_last (st_sv s') = mk_data (p_codec p) y.
+Proof. exact C09Proofs.push_drift_resyncs_lemma. Qed.
+Print Assumptions push_drift_resyncs.
 
-(* (5) the reorder, for all snapshots: reply computed (x -> y1), a push
+(* (6) the reorder, for all snapshots: reply computed (x -> y1), a push
    (y1 -> y2) computed, sent and delivered first, then the reply written and
    delivered. Whenever the checksums of x and y1 differ modulo 256 the push is
-   rejected and dropped, the reply is accepted, the client holds y1, the
-   server believes y2, and no later push run changes anything: stale for ever.
-   (The full statement "one of them is rejected" without the checksum
-   hypothesis is false: 256 | sum difference makes the wrong push acceptable,
-   C10 checksum_detects is exactly this boundary.) *)
-Theorem reorder_stale_partial :
+   rejected; the Sync it requests waits behind the mutation call (callLock),
+   the reply is accepted, then the Sync brings the client to y2: converged.
+   (Before 86fb806: stale for ever, reorder_stale_partial.) The checksum
+   hypothesis is the boundary of C10 checksum_detects; the length hypothesis is
+   RemoteSync's remaining defect, see reorder_sync_refused_refuted. *)
+Theorem reorder_converges_partial :
   forall (p : pcfg) (x y1 y2 : snap) (hello : bool) (l0 : tdata) (la : option tdata)
          (qu : list tdata) (errs : nat) (sil rej syn : bool) (np : nat),
     p_mut p = false -> shallow (p_codec p) = false ->
@@ -151,131 +160,169 @@ Theorem reorder_stale_partial :
     length (s_time x) = length (s_time y1) -> length (s_time y1) = length (s_time y2) ->
     cfg_wf (p_codec p) (length (s_time x)) = true -> tracked (p_codec p) <> [] ->
     snaps_in_range x y1 = true -> snaps_in_range y1 y2 = true ->
-    s_q y1 <> s_q y2 -> tracked_changed (p_codec p) y1 y2 = true ->
+    s_q y1 <> s_q y2 ->
     Forall (fun v => v < w64) (mirror (p_codec p) x) -> s_q x < w64 -> s_m x < w32 ->
     drifted (p_codec p) y1 (mirror (p_codec p) x) (s_q x) (s_m x) = true ->
+    s_time y2 <> [] -> length (s_time y2) = length (mirror (p_codec p) y1) ->
     let s := mkst (mk_server l0 la qu)
                   (mk_client (mirror (p_codec p) x) (s_q x) (s_m x) false false errs)
                   [] None x sil rej syn np in
-    let st := exec p s [Src y1; Reply; Src y2; Push; Deliver; Write; Deliver] in
-    client_view st = (mirror (p_codec p) y1, s_q y1, s_m y1) /\
-    sv_last (st_sv st) = mk_data (p_codec p) y2 /\ st_rejpush st = true /\
+    let s1 := exec p s [Src y1; Reply; Src y2; Push; Settle] in
+    let st := exec p s1 [Write; Settle] in
+    client_view s1 = (mirror (p_codec p) x, s_q x, s_m x) /\ st_rejpush s1 = true /\
+    client_view st = (s_time y2, s_q y2, if p_sync_m p then s_m y2 else 0) /\
+    sv_last (st_sv st) = mk_data (p_codec p) y2 /\ st_synced st = true /\
     quiescent st = true /\ st_err st = false /\ cl_stuck (st_cl st) = false /\
+    (sync_schema (p_codec p) = true ->
+     mirror_ok (p_codec p) (s_time y2) (cl_t (st_cl st)) = true).
+Proof. exact C09Proofs.reorder_converges_lemma. Qed.
+Print Assumptions reorder_converges_partial.
+
+(* (7) since 4b9897e no event blocks the client's read loop: from any state
+   whose read loop runs, after any events (pushes, mutation pushes, replies,
+   syncs, drops, in any order) it still runs. (Before: a rejected mutations
+   push killed it for ever, mutations_push_blocks_refuted + stuck_forever.) *)
+Theorem never_blocks :
+  forall (p : pcfg) (es : list ev) (s : st),
+    cl_stuck (st_cl s) = false -> cl_stuck (st_cl (exec p s es)) = false.
+Proof. exact C09Proofs.never_blocks_lemma. Qed.
+Print Assumptions never_blocks.
+
+(* positive instances of what the repairs changed, on the former witnesses *)
+Theorem mutation_queue_flushed_example :
+  let p := C09Proofs.mutp in
+  let st := exec p (init p C09Proofs.r1_s0)
+              [Src C09Proofs.r3_a; Push; Settle; Src C09Proofs.r3_b; Push; Settle;
+               Src C09Proofs.r5_c; Push; Settle] in
+  client_view st = ([1; 1; 1; 0], 4, 0) /\ st_rejpush st = false /\
+  sv_queue (st_sv st) = [] /\ quiescent st = true.
+Proof. exact C09Proofs.mutation_queue_flushed_example. Qed.
+Print Assumptions mutation_queue_flushed_example.
+
+Theorem mutations_history_example :
+  let p := C09Proofs.mutp in
+  let st := exec p (init p C09Proofs.h_s0) [Push; Settle; Src C09Proofs.r3_b; Push; Settle] in
+  client_view st = ([1; 1; 0; 0], 3, 0) /\ cl_stuck (st_cl st) = false /\
+  st_rejpush st = false.
+Proof. exact C09Proofs.mutations_history_example. Qed.
+Print Assumptions mutations_history_example.
+
+(* refutations: what still fails on the repaired code *)
+
+(* RemoteSync returns a time slice of the SOURCE's length: without a schema and
+   with an allow / skip list Client.Sync refuses it ("wrong clock len"), so no
+   drift can ever be repaired. In-order witness with shallow clocks (every
+   shallow push is rejected, C10 shallow_accept_refuted) *)
+Theorem sync_refused_refuted :
+  exists (p : pcfg) (s0 a : snap),
+    p_mut p = false /\ sync_schema (p_codec p) = false /\
+    cfg_wf (p_codec p) (length (s_time s0)) = true /\
+    chain_in_range s0 [a] = true /\ s_m s0 = 0 /\
+    let st := exec p (init p s0) [Src a; Push; Settle] in
+    quiescent st = true /\ st_err st = false /\ cl_stuck (st_cl st) = false /\
+    st_rejpush st = true /\ st_synced st = true /\ cl_errs (st_cl st) = 1%nat /\
+    mirror_ok (p_codec p) (s_time a) (cl_t (st_cl st)) = false /\
+    forall n, exec p st (concat (repeat [Push; Settle] n)) = st.
+Proof. exact C09Proofs.sync_refused_refuted_lemma. Qed.
+Print Assumptions sync_refused_refuted.
+
+(* the same with deep clocks, the drift coming from a reply overtaken by a push *)
+Theorem reorder_sync_refused_refuted :
+  exists (p : pcfg) (s0 y1 y2 : snap),
+    p_mut p = false /\ shallow (p_codec p) = false /\ sync_schema (p_codec p) = false /\
+    cfg_wf (p_codec p) (length (s_time s0)) = true /\
+    chain_in_range s0 [y1; y2] = true /\ s_m s0 = 0 /\
+    let st := exec p (init p s0) [Src y1; Reply; Src y2; Push; Settle; Write; Settle] in
+    quiescent st = true /\ st_err st = false /\
+    st_rejpush st = true /\ cl_errs (st_cl st) = 1%nat /\
+    sv_last (st_sv st) = mk_data (p_codec p) y2 /\
+    client_view st = (mirror (p_codec p) y1, s_q y1, s_m y1) /\
     mirror_ok (p_codec p) (s_time y2) (cl_t (st_cl st)) = false /\
     forall n, exec p st (concat (repeat [Push; Settle] n)) = st.
-Proof. exact C09Proofs.reorder_stale_lemma. Qed.
-Print Assumptions reorder_stale_partial.
+Proof. exact C09Proofs.reorder_sync_refused_refuted_lemma. Qed.
+Print Assumptions reorder_sync_refused_refuted.
 
-(* refutations *)
-
-Theorem reorder_stale_refuted :
-  exists (p : pcfg) (s0 s1 s2 : snap),
-    p_mut p = false /\ shallow (p_codec p) = false /\
-    cfg_wf (p_codec p) (length (s_time s0)) = true /\
-    chain_in_range s0 [s1; s2] = true /\ s_m s0 = 0 /\
-    let st := exec p (init p s0) [Src s1; Reply; Src s2; Push; Deliver; Write; Deliver] in
-    quiescent st = true /\ st_err st = false /\ cl_stuck (st_cl st) = false /\
-    st_rejpush st = true /\
-    sv_last (st_sv st) = mk_data (p_codec p) s2 /\
-    client_view st = (mirror (p_codec p) s1, s_q s1, s_m s1) /\
-    mirror_ok (p_codec p) (s_time s2) (cl_t (st_cl st)) = false /\
-    forall n, exec p st (concat (repeat [Push; Settle] n)) = st.
-Proof. exact C09Proofs.reorder_stale_refuted_lemma. Qed.
-Print Assumptions reorder_stale_refuted.
-
-Theorem inorder_converges_refuted :
-  exists (p : pcfg) (s0 a b c : snap),
-    p_mut p = false /\ shallow (p_codec p) = false /\
-    cfg_wf (p_codec p) (length (s_time s0)) = true /\
-    chain_in_range s0 [a; b; c] = true /\ s_m s0 = 0 /\
-    let st := exec p (init p s0)
-                [Src a; Push; Settle; Src b; Push; Settle; Src c; Push; Settle] in
-    quiescent st = true /\ st_err st = false /\ cl_stuck (st_cl st) = false /\
-    st_silent st = true /\ st_rejpush st = true /\
-    mirror_ok (p_codec p) (s_time c) (cl_t (st_cl st)) = false /\
-    forall n, exec p st (concat (repeat [Push; Settle] n)) = st.
-Proof. exact C09Proofs.inorder_converges_refuted_lemma. Qed.
-Print Assumptions inorder_converges_refuted.
-
-Theorem initial_data_push_refuted :
-  exists (p : pcfg) (s0 a : snap),
-    p_mut p = false /\ shallow (p_codec p) = false /\
-    cfg_wf (p_codec p) (length (s_time s0)) = true /\
-    chain_in_range s0 [a] = true /\ s_m s0 = 0 /\
-    let st := exec p (init p s0) [Push; Settle; Src a; Push; Settle] in
-    quiescent st = true /\ st_err st = false /\
-    st_initpush st = true /\ st_rejpush st = true /\
-    mirror_ok (p_codec p) (s_time a) (cl_t (st_cl st)) = false /\
-    forall n, exec p st (concat (repeat [Push; Settle] n)) = st.
-Proof. exact C09Proofs.initial_data_push_refuted_lemma. Qed.
-Print Assumptions initial_data_push_refuted.
-
-Theorem mutations_push_blocks_refuted :
-  exists (p : pcfg) (s0 a : snap),
-    p_mut p = true /\ shallow (p_codec p) = false /\
-    cfg_wf (p_codec p) (length (s_time s0)) = true /\
-    chain_in_range s0 [a] = true /\ s_m s0 = 0 /\
-    let st := exec p (init p s0) [Push; Settle; Src a; Push; Settle] in
-    st_err st = false /\ cl_stuck (st_cl st) = true /\
-    mirror_ok (p_codec p) (s_time a) (cl_t (st_cl st)) = false /\
-    forall es, st_cl (exec p st es) = st_cl st.
-Proof. exact C09Proofs.mutations_push_blocks_refuted_lemma. Qed.
-Print Assumptions mutations_push_blocks_refuted.
-
-Theorem mutation_queue_refuted :
-  exists (p : pcfg) (s0 a b c : snap),
-    p_mut p = true /\ shallow (p_codec p) = false /\
-    cfg_wf (p_codec p) (length (s_time s0)) = true /\
-    chain_in_range s0 [a; b; c] = true /\ s_m s0 = 0 /\
-    let st := exec p (init p s0)
-                [Src a; Push; Settle; Src b; Push; Settle; Src c; Push; Settle] in
-    quiescent st = true /\ st_err st = false /\ cl_stuck (st_cl st) = false /\
-    st_rejpush st = false /\
-    activity_ok (p_codec p) (s_time c) (cl_t (st_cl st)) = true /\
-    ticks_ok (p_codec p) (s_time c) (cl_t (st_cl st)) = false /\
-    cl_t (st_cl st) = [1; 1 + 4294967296; 1; 0] /\ cl_q (st_cl st) = 4 + 65536.
-Proof. exact C09Proofs.mutation_queue_refuted_lemma. Qed.
-Print Assumptions mutation_queue_refuted.
-
-Theorem full_sync_partial_refuted :
+(* RemoteSync does not memorise what it sent: after a Sync() the next push is
+   computed against the older lastPushData and rejected although the client was
+   exactly current; a second full Sync repairs it *)
+Theorem sync_not_memorised_refuted :
   exists (p : pcfg) (s0 a b : snap),
     p_mut p = false /\ shallow (p_codec p) = false /\
     cfg_wf (p_codec p) (length (s_time s0)) = true /\
     chain_in_range s0 [a; b] = true /\ s_m s0 = 0 /\
     let st1 := exec p (init p s0) [Src a; SyncReq; Settle] in
     let st := exec p st1 [Src b; Push; Settle] in
-    mirror_ok (p_codec p) (s_time a) (cl_t (st_cl st1)) = true /\
+    client_view st1 = (mirror (p_codec p) a, s_q a, s_m a) /\
+    st_rejpush st1 = false /\ st_rejpush st = true /\
+    client_view st = (mirror (p_codec p) b, s_q b, s_m b) /\ quiescent st = true.
+Proof. exact C09Proofs.sync_not_memorised_refuted_lemma. Qed.
+Print Assumptions sync_not_memorised_refuted.
+
+(* RemoteSync returns the unfiltered time: with an allow list (and a schema)
+   the synced mirror carries untracked ticks, the client's checksum covers them
+   and EVERY later push is rejected and answered by another full Sync (the
+   synchronised states are right each time) *)
+Theorem full_sync_partial_refuted :
+  exists (p : pcfg) (s0 a b c : snap),
+    p_mut p = false /\ shallow (p_codec p) = false /\
+    cfg_wf (p_codec p) (length (s_time s0)) = true /\
+    chain_in_range s0 [a; b; c] = true /\ s_m s0 = 0 /\
+    let st1 := exec p (init p s0) [Src a; SyncReq; Settle] in
+    let st2 := exec p st1 [Src b; Push; Settle] in
+    let st3 := exec p (set_flags st2 false false false 0%nat) [Src c; Push; Settle] in
     cl_t (st_cl st1) <> mirror (p_codec p) a /\
-    quiescent st = true /\ st_err st = false /\ st_rejpush st = true /\
-    mirror_ok (p_codec p) (s_time b) (cl_t (st_cl st)) = false /\
-    forall n, exec p st (concat (repeat [Push; Settle] n)) = st.
+    st_rejpush st2 = true /\ mirror_ok (p_codec p) (s_time b) (cl_t (st_cl st2)) = true /\
+    cl_t (st_cl st2) <> mirror (p_codec p) b /\
+    st_rejpush st3 = true /\ st_synced st3 = true /\
+    mirror_ok (p_codec p) (s_time c) (cl_t (st_cl st3)) = true.
 Proof. exact C09Proofs.full_sync_partial_refuted_lemma. Qed.
 Print Assumptions full_sync_partial_refuted.
 
-(* the unrepaired client (HandshakeDone ignores the Hello's MachineTick): on a
-   source whose MachineTick is not 0 every diff fails the checksum. /repo now
-   contains the repair (switch p_hello_m, probed by the harness on every run);
-   corpus/C09/reconnect_machtick.json fails again if it is reverted *)
-Theorem hello_machtick_unrepaired_refuted :
-  exists (p : pcfg) (s0 a : snap),
-    p_mut p = false /\ shallow (p_codec p) = false /\ p_hello_m p = false /\
+(* shallow clocks: every push is rejected (C10) and costs a full Sync *)
+Theorem shallow_push_rejected_refuted :
+  exists (p : pcfg) (s0 a b : snap),
+    p_mut p = false /\ shallow (p_codec p) = true /\
     cfg_wf (p_codec p) (length (s_time s0)) = true /\
-    chain_in_range s0 [a] = true /\ s_m s0 = 1 /\
-    let st := exec p (init p s0) [Src a; Push; Settle] in
-    quiescent st = true /\ st_err st = false /\ st_rejpush st = true /\
-    mirror_ok (p_codec p) (s_time a) (cl_t (st_cl st)) = false /\
-    forall n, exec p st (concat (repeat [Push; Settle] n)) = st.
+    chain_in_range s0 [a; b] = true /\ s_m s0 = 0 /\
+    let st1 := exec p (init p s0) [Src a; Push; Settle] in
+    let st2 := exec p (set_flags st1 false false false 0%nat) [Src b; Push; Settle] in
+    st_rejpush st1 = true /\ st_synced st1 = true /\
+    mirror_ok (p_codec p) (s_time a) (cl_t (st_cl st1)) = true /\
+    st_rejpush st2 = true /\ st_synced st2 = true /\
+    mirror_ok (p_codec p) (s_time b) (cl_t (st_cl st2)) = true.
+Proof. exact C09Proofs.shallow_push_rejected_refuted_lemma. Qed.
+Print Assumptions shallow_push_rejected_refuted.
+
+(* the unrepaired client side of the machine tick (switches p_hello_m, p_sync_m
+   off; /repo contains both repairs, probed on every run;
+   corpus/C09/reconnect_machtick.json fails again if one is reverted): every
+   push is rejected and the Sync leaves machine tick 0 again *)
+Theorem hello_machtick_unrepaired_refuted :
+  exists (p : pcfg) (s0 a b : snap),
+    p_mut p = false /\ shallow (p_codec p) = false /\ p_hello_m p = false /\ p_sync_m p = false /\
+    cfg_wf (p_codec p) (length (s_time s0)) = true /\
+    chain_in_range s0 [a; b] = true /\ s_m s0 = 1 /\
+    let st1 := exec p (init p s0) [Src a; Push; Settle] in
+    let st2 := exec p (set_flags st1 false false false 0%nat) [Src b; Push; Settle] in
+    st_rejpush st1 = true /\ cl_m (st_cl st1) = 0 /\
+    st_rejpush st2 = true /\ cl_m (st_cl st2) = 0 /\
+    mirror_ok (p_codec p) (s_time b) (cl_t (st_cl st2)) = true.
 Proof. exact C09Proofs.hello_machtick_refuted_lemma. Qed.
 Print Assumptions hello_machtick_unrepaired_refuted.
 
-Theorem shallow_push_stale_refuted :
-  exists (p : pcfg) (s0 a : snap),
-    p_mut p = false /\ shallow (p_codec p) = true /\
+(* per-mutation sync after a reconnect: RemoteHello re-memorises lastPushData
+   but keeps the tracer's dataQueue (mutations recorded before the Hello): the
+   next chain starts below lastPushData, the negative deltas wrap to 2^32 /
+   2^16 and the mod-256 checksum accepts them *)
+Theorem hello_keeps_queue_refuted :
+  exists (p : pcfg) (s0 a b c : snap),
+    p_mut p = true /\ shallow (p_codec p) = false /\
     cfg_wf (p_codec p) (length (s_time s0)) = true /\
-    chain_in_range s0 [a] = true /\ s_m s0 = 0 /\
-    let st := exec p (init p s0) [Src a; Push; Settle] in
-    quiescent st = true /\ st_err st = false /\ st_rejpush st = true /\
-    mirror_ok (p_codec p) (s_time a) (cl_t (st_cl st)) = false /\
-    forall n, exec p st (concat (repeat [Push; Settle] n)) = st.
-Proof. exact C09Proofs.shallow_push_stale_refuted_lemma. Qed.
-Print Assumptions shallow_push_stale_refuted.
+    chain_in_range s0 [a; b; c] = true /\ s_m s0 = 0 /\
+    let st := exec p (init p s0) [Src a; Src b; Hello; Src c; Push; Settle] in
+    quiescent st = true /\ st_err st = false /\ st_rejpush st = false /\
+    activity_ok (p_codec p) (s_time c) (cl_t (st_cl st)) = true /\
+    ticks_ok (p_codec p) (s_time c) (cl_t (st_cl st)) = false /\
+    cl_t (st_cl st) = [1; 1 + 4294967296; 1; 0] /\ cl_q (st_cl st) = 4 + 65536.
+Proof. exact C09Proofs.hello_keeps_queue_refuted_lemma. Qed.
+Print Assumptions hello_keeps_queue_refuted.
